@@ -69,7 +69,7 @@ End C06.
 
 (* the /repo functions this model was written from are still, statement by statement, the modelled ones *)
 Theorem C06_sources_are_the_modelled_ones :
-  all (all id) [:: gen_src_derivative; gen_src_gradient; gen_src_hessian] /\ [seq size f | f <- [:: gen_src_derivative; gen_src_gradient; gen_src_hessian]] = [:: 3; 3; 4]%N.
+  all (all id) [:: gen_src_derivative; gen_src_gradient; gen_src_hessian] /\ [seq size f | f <- [:: gen_src_derivative; gen_src_gradient; gen_src_hessian]] = [:: 4; 3; 4]%N.
 Proof. exact: bridge_src_C06. Qed.
 
 Print Assumptions C06_derivative.
